@@ -24,6 +24,10 @@ type Streamer struct {
 	sendTransaction SendTransactionFunc
 	errChan         <-chan *Error
 	ctx             context.Context
+	// endedUncancelled records that the last Stream call returned while its
+	// context was not cancelled: a cancellation that happens later says
+	// nothing about why that stream ended.
+	endedUncancelled bool
 }
 
 //SendTransactionFunc 处理事务信息函数，你可以将一个chan注册到这个函数中如
@@ -61,6 +65,7 @@ func (s *Streamer) binlogPosition() Position {
 //Stream 注册一个处理事务信息函数到Stream中
 func (s *Streamer) Stream(ctx context.Context, sendTransaction SendTransactionFunc) error {
 	s.ctx = ctx
+	s.endedUncancelled = false
 	// The reader goroutine must not outlive this call: it is released through a
 	// context that is cancelled on every return path. s.ctx stays the caller's
 	// context, which is what Error() consults.
@@ -82,6 +87,7 @@ func (s *Streamer) Stream(ctx context.Context, sendTransaction SendTransactionFu
 	}
 	s.errChan = conn.errChan
 	pos, err = s.parseEvents(ctx, events)
+	s.endedUncancelled = ctx.Err() == nil
 	s.SetBinlogPosition(pos)
 	if err != nil {
 		return err.msgf("parseEvents fail in pos: %+v", err)
@@ -99,7 +105,7 @@ func (s *Streamer) Error() error {
 	case err, ok := <-s.errChan:
 		if ok {
 			switch {
-			case s.ctx.Err() == context.Canceled:
+			case s.ctx.Err() == context.Canceled && !s.endedUncancelled:
 				return nil
 			case err.Original() == context.Canceled,
 				err.Original() == errStreamEOF:
